@@ -145,20 +145,54 @@ theorem seq_duration_invariant (dev : Device) (nQ : Nat) (hd : DevOk dev) (s : S
 
 /-- **No spurious rejection by the validation step**: a pulse inside every limit whose
 duration is acceptable is adjusted (or kept) — never refused — provided its waveforms can
-be resized when the duration has to change. -/
+be resized when the duration has to change and the pulse *as lengthened* is still inside
+every limit (since the repair of F37 the lengthened pulse is validated too: a Blackman keeps
+its area, an interpolated waveform is re-sampled). The scheduled record carries the summary of
+the pulse as scheduled. -/
 theorem accepts_within_limits (c : ChanState) (p : PulseIn) (r : Option Rat) (d' : Nat)
     (hw : WithinLimits c.cfg c.maxW c.sumW p.sum) (hd : validateDuration c.cfg p.dur = .ok d')
-    (hres : d' = p.dur ∨ p.resizable = true) :
-    ∃ pr, validateAndAdjust c p r = .ok pr ∧ pr.dur = d' := by
+    (hres : d' = p.dur ∨ (p.resizable = true ∧ WithinLimits c.cfg c.maxW c.sumW p.sumAdj)) :
+    ∃ pr, validateAndAdjust c p r = .ok pr ∧ pr.dur = d' ∧
+      pr.sum = (if d' ≠ p.dur then p.sumAdj else p.sum) := by
   unfold validateAndAdjust
   rw [(validatePulse_iff c p.sum).mpr hw, hd]
   simp only
   have : ¬ (d' ≠ p.dur ∧ (!p.resizable) = true) := by
     rcases hres with h | h
     · exact fun ⟨a, _⟩ => a h
-    · rw [h]; simp
+    · rw [h.1]; simp
   rw [if_neg this]
-  exact ⟨_, rfl, rfl⟩
+  by_cases hdd : d' ≠ p.dur
+  · rcases hres with h | h
+    · exact absurd h hdd
+    · rw [if_pos hdd, (validatePulse_iff c p.sumAdj).mpr h.2]
+      exact ⟨_, rfl, rfl, rfl⟩
+  · rw [if_neg hdd]
+    exact ⟨_, rfl, rfl, rfl⟩
+
+/-- **The lengthened pulse is validated as scheduled** (repair of F37): when the duration has
+to change, acceptance implies that the summary of the *lengthened* pulse is inside every limit
+— and that is the summary the scheduled record carries. -/
+theorem adjusted_pulse_validated (c : ChanState) (p : PulseIn) (r : Option Rat) (pr : PulseRec)
+    (hc : 0 < c.cfg.clock) (h : validateAndAdjust c p r = .ok pr) :
+    WithinLimits c.cfg c.maxW c.sumW pr.sum ∧ (pr.dur ≠ p.dur → pr.sum = p.sumAdj) := by
+  have hok := validateAndAdjust_ok hc h
+  unfold validateAndAdjust at h
+  split at h
+  · cases h
+  · split at h
+    · cases h
+    · split at h
+      · cases h
+      · split at h
+        · cases h
+        · rename_i u2 hv2
+          injection h with h; subst h
+          refine ⟨?_, fun hne => by simp only at hne ⊢; rw [if_pos hne]⟩
+          simp only
+          split
+          · rename_i hdd; rw [if_pos hdd] at hv2; exact (validatePulse_iff c p.sumAdj).mp hv2
+          · exact hok.2.2
 
 /-! ### Non-vacuity -/
 
